@@ -35,6 +35,23 @@ class Ctx:
     def kind(self, r):
         return z3.Select(self.arr("$kind"), r)
 
+    def fun(self, name, arg_sorts, ret_sort, body, deps=()):
+        """A spec function of this state, introduced as an *opaque* symbol with its definition as a
+        quantified fact triggered on the symbol itself: gives the solver clean triggers instead of large
+        if-then-else terms.  body(*args) -> term.  Memoised per context."""
+        # two contexts over the same heap arrays (for the fields in deps) share the symbol
+        key = (name,) + tuple(self.arr(k).get_id() for k in deps)
+        memo = self.eng.fun_memo
+        if key in memo:
+            return memo[key]
+        from .core import fresh_name
+        f = z3.Function(fresh_name("F_" + name), *(list(arg_sorts) + [ret_sort]))
+        xs = [z3.Const("x%d_%s" % (i, name), srt) for i, srt in enumerate(arg_sorts)]
+        ax = z3.ForAll(xs, f(*xs) == body(*xs), patterns=[f(*xs)])
+        self.eng.cur_facts.append(ax)
+        memo[key] = f
+        return f
+
     def isinst(self, r, clsname):
         ci = self.eng.prog.find_class(clsname)
         ids = self.eng.schema.subclass_ids(self.eng.prog, ci)
@@ -79,6 +96,25 @@ class Contract:
 
     def may_raise(self, c0, a):
         """{ExcName: condition}: ExcName may be raised only when condition holds (one direction)."""
+        return {}
+
+    def focus(self, clause):
+        """Optional assumption slicing ('keep each query small'): the set of clause names (of this contract's
+        preconditions, of callee postconditions and of lemmas) that the proof of `clause` may use; None = all.
+        Untagged assumptions (branch decisions, definitions, frames) are always available."""
+        return None
+
+    def _sliced(self, s, clause, lemmas):
+        names = self.focus(clause)
+        if names is None:
+            return s.assumptions() + [f for (_, f) in lemmas]
+        names = set(names)
+        keep = lambda tag: tag.rsplit(".", 1)[-1] in names
+        return s.sliced_assumptions(keep) + [f for (n, f) in lemmas if n in names]
+
+    def lemmas(self, c0, c1, a, res):
+        """Hint lemmas about the pre/post state: each is proved (in order, earlier ones available) and then
+        assumed when the postconditions are proved.  Never assumed without proof."""
         return {}
 
     def result_term(self, c0, a):
@@ -185,7 +221,7 @@ class Contract:
             res = rt if rt is not None else make_symbolic(eng, st, "res_" + self.short().replace(".", "_"),
                                                           self.result)
         for name, f in self.post(c0, c1, a, res).items():
-            st.define(f)
+            st.define(f, tag="call:%s.post.%s" % (self.short(), name))
         for pname in self.inout:
             arg = a[pname]
             if arg.wb is None:
@@ -228,6 +264,8 @@ class Contract:
         st.obls = obls
         st.entry_mark = 0
         st.facts = list(eng.schema.axioms) + list(self.axioms(eng))
+        eng.cur_facts = st.facts
+        eng.fun_memo = {}
         names, vararg, kwonly = fi.params()
         a = Args()
         specs = dict(self.params or {})
@@ -250,7 +288,7 @@ class Contract:
                                    pname, SV(new.k, new.t, cls=new.cls, x=new.x, wb=st2.env[pname].wb)))
         c0 = Ctx(eng, dict(st.heap))
         for name, f in self.pre(c0, a).items():
-            st.assume(f, "pre." + name)
+            st.assume(f, "pre." + name, tag="pre." + name)
         st.heap = c0.heap   # share arrays created lazily by pre
         c0 = Ctx(eng, dict(st.heap))
         st.entry_mark = len(st.pc)
@@ -327,8 +365,14 @@ class Contract:
                     bags = eng.bags_of(res, s)
                 lc = z3.And(*s.pc[st.entry_mark:]) if len(s.pc) > st.entry_mark else z3.BoolVal(True)
                 all_bags.append((s, lc, bags))
+            lemmas = []
+            for name, f in self.lemmas(c0, c1, a, res).items():
+                obls.append(Obligation("lemma.%s/%s" % (name, tag), self._sliced(s, "lemma." + name, lemmas), f,
+                                       info={"path": s.trace}))
+                lemmas.append((name, f))
             for name, f in self.post(c0, c1, a, res).items():
-                obls.append(Obligation("post.%s/%s" % (name, tag), s.assumptions(), f, info={"path": s.trace}))
+                obls.append(Obligation("post.%s/%s" % (name, tag), self._sliced(s, name, lemmas), f,
+                                       info={"path": s.trace}))
             # frame
             for name, f in self.frame_obligations(eng, c0, c1, a).items():
                 obls.append(Obligation("frame.%s/%s" % (name, tag), s.assumptions(), f, info={"path": s.trace}))
